@@ -5,7 +5,8 @@ closed under two rules (R0, R1 below).  It enters the proofs as an uninterpreted
 which only rule instances are ever assumed, so a proved `PKG(base, dir, mod)` has a derivation:
   R0  PKG(d, d, "")
   R1  PKG(b, parent, m), split(dir) = (parent, raw), n = raw without a '-stubs' suffix,
-      n.isidentifier(), (dir has an __init__ file or namespace packages are on)
+      n.isidentifier(), (dir has an __init__ file or namespace packages are on),
+      dir is not an explicit package base (when explicit bases are in use)
       ==> PKG(b, dir, m + '.' + n   (or n when m is empty))
 The file system (isfile / package roots) and os.path.split / abspath are arbitrary functions."""
 from __future__ import annotations
@@ -38,11 +39,12 @@ def mjoin(m, n):
     return z3.If(z3.Length(m) > 0, z3.Concat(m, z3.StringVal("."), n), n)
 
 
-def r1_instance(ns, b, m, d):
-    """rule R1 instantiated at directory d with parent derivation (b, m)"""
+def r1_instance(ns, b, m, d, no_bases=z3.BoolVal(False)):
+    """rule R1 instantiated at directory d with parent derivation (b, m); a directory that is an
+    explicit package base is never crawled through ('until the nearest explicit base directory')"""
     raw = SPLIT_N(d)
     n = strip_stubs(raw)
-    pre = z3.And(PKG(b, SPLIT_P(d), m), IDENT(n), z3.Or(HAS_INIT(d), ns))
+    pre = z3.And(PKG(b, SPLIT_P(d), m), IDENT(n), z3.Or(HAS_INIT(d), ns), z3.Or(no_bases, z3.Not(EXPLICIT(d))))
     return z3.Implies(pre, PKG(b, d, mjoin(m, n)))
 
 
@@ -108,11 +110,12 @@ def rules(I, env, d):
     """the rule instances available to the proof: R0 at every directory mentioned, R1 at `d` for every
     derivation obtained from a callee contract (and for the R0 derivation of the parent)"""
     ns = I.getattr(env["self"], "namespace_packages").t
+    nb = isnone(I.getattr(env["self"], "explicit_package_bases"))
     par = SPLIT_P(d)
     insts = [PKG(d, d, z3.StringVal("")), PKG(par, par, z3.StringVal(""))]
     for (b, dd, m) in I.ctx.ghost.get("derived", []):
-        insts.append(r1_instance(ns, b, m, d))
-    insts.append(r1_instance(ns, par, z3.StringVal(""), d))
+        insts.append(r1_instance(ns, b, m, d, nb))
+    insts.append(r1_instance(ns, par, z3.StringVal(""), d, nb))
     return insts
 
 
